@@ -234,9 +234,15 @@ def lemmas():
 def make_specs():
     out = [ThreadStop(), DispatcherStop(), DispatcherInit(), RunLoop("EventEmitter"), RunLoop("EventDispatcher")]
     W = c04.DispatchWorld()
-    for sp in (c05.OnThreadStop(W), c12.EmitterStop(), c12.BufSpec("on_thread_stop"), c12.BufSpec("close")):
+    for sp in (c05.OnThreadStop(W), c05.RemoveEmitter(W), c12.EmitterStop(), c12.BufSpec("on_thread_stop"), c12.BufSpec("close")):
         sp.prop = PROP
         out.append(sp)
+    # W1 for the emitters of an observer: unschedule_all()/_clear_emitters tell EVERY registered emitter to stop, whether
+    # or not its thread is alive yet (BaseObserver.start() starts them without the registry lock)
+    from specs import c13
+    for sp in c13.make_specs():
+        if sp.qualname in ("BaseObserver._clear_emitters", "BaseObserver.unschedule_all"):
+            out.append(_p(sp))
     IW = IRWorld()
     out += [InoClose(IW, PROP), ReadEvents(IW, PROP, want=("fds",))]
     DW = c17.World()
